@@ -18,6 +18,7 @@ import (
 	"strings"
 	"sync"
 	"sync/atomic"
+	"time"
 
 	"cuelang.org/go/cue"
 	"cuelang.org/go/cue/cuecontext"
@@ -48,6 +49,9 @@ type kase struct {
 	Value   int    `json:"value"`
 	Calls   []int  `json:"calls"`
 	Choices string `json:"choices,omitempty"`
+	// Raw (race pass only): do not finalize the pattern constraints before the
+	// value is shared
+	Raw bool `json:"raw,omitempty"`
 }
 
 var programs = []string{
@@ -71,7 +75,71 @@ var programs = []string{
 
 var seq atomic.Int64
 
-func init() { seq.Store(500000000) } // ids never collide with digits of results
+// Values derived by the calls of one execution (CompileSameCtx): after the
+// calls have finished they are unified with each other and the result must be
+// what a sequential run gives - this makes state that is private to a derived
+// value but drawn from a shared counter (let labels) observable.
+var (
+	depMu     sync.Mutex
+	deposited = map[int64]cue.Value{}
+)
+
+func deposit(id int64, v cue.Value) {
+	depMu.Lock()
+	deposited[id] = v
+	depMu.Unlock()
+}
+
+func resetDeposits() {
+	depMu.Lock()
+	deposited = map[int64]cue.Value{}
+	depMu.Unlock()
+}
+
+// derivedString unifies the values deposited under ids (in that order) and
+// renders the result with the ids replaced by their position.
+func derivedString(ids []int64) string {
+	depMu.Lock()
+	defer depMu.Unlock()
+	var vs []cue.Value
+	for _, id := range ids {
+		if v, ok := deposited[id]; ok {
+			vs = append(vs, v)
+		}
+	}
+	if len(vs) < 2 {
+		return ""
+	}
+	u := vs[0]
+	for _, v := range vs[1:] {
+		u = u.Unify(v)
+	}
+	b, err := u.MarshalJSON()
+	out := string(b) + errClass(err)
+	for i, id := range ids {
+		out = strings.ReplaceAll(out, fmt.Sprint(id), fmt.Sprintf("N%d", i))
+	}
+	return out
+}
+
+// sequentialDerived is derivedString for the calls run one after the other.
+func sequentialDerived(c kase) string {
+	vsync.ResetAllMaps()
+	resetDeposits()
+	ctx := cuecontext.New()
+	v := ctx.CompileString(programs[c.Value])
+	ids := make([]int64, len(c.Calls))
+	for i, ci := range c.Calls {
+		ids[i] = seq.Add(1)
+		calls[ci].fn(ctx, v, ids[i])
+	}
+	return derivedString(ids)
+}
+
+func init() {
+	seq.Store(500000000)
+	core.RegisterChild("c19raw", rawChild)
+} // ids never collide with digits of results
 
 type call struct {
 	name string
@@ -170,7 +238,9 @@ var calls = []call{
 		return errClass(w.Subsume(v)) + errClass(v.Subsume(w))
 	}},
 	{"CompileSameCtx", func(ctx *cue.Context, v cue.Value, id int64) string {
-		w := ctx.CompileString(fmt.Sprintf("n%d: {a%d: 1, b: a%d + 1}\n", id, id, id))
+		// a let: every compiled let draws a fresh id from the runtime's counter
+		w := ctx.CompileString(fmt.Sprintf("let X = %d\nn%d: {a%d: X, b: \"v-\\(a%d)\"}\n", id, id, id, id))
+		deposit(id, w)
 		return errClass(w.Validate(cue.Concrete(true)))
 	}},
 	{"OtherContext", func(_ *cue.Context, v cue.Value, id int64) string {
@@ -232,7 +302,10 @@ func run(r *core.Run) {
 
 // racePass (phase 2) runs in the -race build of the harness.
 func racePass(r *core.Run) {
-	r.Section("race pass: every pair on real goroutines under the race detector")
+	if r.Thorough() {
+		raceReps = 40
+	}
+	r.Section(fmt.Sprintf("race pass: every pair x %d repetitions on real goroutines under the race detector", raceReps))
 	if !raceEnabled {
 		r.EngineError("race pass requested in a binary built without -race")
 		return
@@ -247,6 +320,11 @@ func racePass(r *core.Run) {
 				r.Guard(c, func() { racePair(r, c) })
 			}
 		}
+	}
+	// the known lazy-finalization race, in a helper process
+	if r.Mine() {
+		c := kase{Value: 0, Calls: []int{1, 1}, Raw: true}
+		r.Guard(c, func() { rawCase(r, c) })
 	}
 }
 
@@ -287,9 +365,11 @@ func explore(r *core.Run, c kase, bound int) {
 	for i, ci := range c.Calls {
 		want[i] = strings.ReplaceAll(baseline(c.Value, ci), fmt.Sprint(baselineID), "N")
 	}
+	wantDerived := sequentialDerived(c)
 	nExec := 0
 	res := sched.Explore(bound, 200000, 400000, func() (func(), func(*sched.S) bool) {
 		vsync.ResetAllMaps()
+		resetDeposits()
 		ctx := cuecontext.New()
 		v := ctx.CompileString(programs[c.Value])
 		cn := canon.New(ctx, canon.Opts{})
@@ -341,6 +421,9 @@ func explore(r *core.Run, c kase, bound int) {
 			if after := cn.Canon(v); after != before {
 				return fail("shared value changed", fmt.Sprintf("before: %s\nafter:  %s", before, after))
 			}
+			if d := derivedString(ids); d != wantDerived {
+				return fail("values derived concurrently do not unify as the sequentially derived ones", fmt.Sprintf("sequential: %s\nconcurrent: %s", wantDerived, d))
+			}
 			return true
 		}
 		return body, check
@@ -386,19 +469,60 @@ func (w *vwg) wait() {
 
 // ---- race pass ----
 
+// raceReps is the number of times every pair runs on real goroutines. The
+// detector reports a racy pair only when the real schedule exposes it (about
+// one run in ten for an access pattern shielded by atomics), so each pair is
+// repeated.
+var raceReps = 12
+
 func racePair(r *core.Run, c kase) {
+	key, detail := racePairCore(c)
+	r.Trans(raceReps)
+	if key != "" {
+		r.Violation(keyOf(key, c), c, detail)
+		return
+	}
+	r.Outcome("race:none")
+}
+
+// prewalk finalizes the pattern constraints of v in the calling goroutine.
+// Iterator.Next finalizes them lazily, which is a known race of the unchanged
+// tree (known_findings.jsonl) that can corrupt the evaluator's state and kill
+// the process; every case but the dedicated raw one starts from a value whose
+// pattern constraints are already finalized, so that the free-running pass
+// stays usable for finding other races.
+func prewalk(x cue.Value, d int) {
+	it, err := x.Fields(cue.All(), cue.Patterns(true))
+	if err != nil || d > 4 {
+		return
+	}
+	for it.Next() {
+		prewalk(it.Value(), d+1)
+	}
+}
+
+// racePairCore runs the calls of c on real goroutines raceReps times and
+// returns a violation key and detail ("" if nothing was seen).
+func racePairCore(c kase) (key, detail string) {
 	before := racelog.Reports()
-	for rep := 0; rep < 3; rep++ {
+	wantDerived := sequentialDerived(c)
+	for rep := 0; rep < raceReps; rep++ {
 		// cold process-wide caches for every repetition: a cache that is filled
 		// on first use is shared mutable state exactly once per key
 		vsync.ResetAllMaps()
+		resetDeposits()
 		ctx := cuecontext.New()
 		v := ctx.CompileString(programs[c.Value])
+		if !c.Raw {
+			prewalk(v, 0)
+		}
 		start := make(chan struct{})
 		var wg sync.WaitGroup
-		for _, ci := range c.Calls {
+		ids := make([]int64, len(c.Calls))
+		for i, ci := range c.Calls {
 			ci := ci
 			id := seq.Add(1)
+			ids[i] = id
 			wg.Add(1)
 			go func() {
 				defer wg.Done()
@@ -408,11 +532,45 @@ func racePair(r *core.Run, c kase) {
 		}
 		close(start)
 		wg.Wait()
+		if d := derivedString(ids); d != wantDerived {
+			return "values derived concurrently do not unify as the sequentially derived ones (free run)", fmt.Sprintf("sequential: %s\nconcurrent: %s", wantDerived, d)
+		}
 	}
-	r.Trans(3)
 	if n := racelog.Reports() - before; n > 0 {
 		rep := racelog.Last()
-		r.Violation(keyOf("data race: "+racelog.Key(rep), c), c, rep)
+		return "data race: " + racelog.Key(rep), rep
+	}
+	return "", ""
+}
+
+// rawChild runs in a helper process (the same -race build): the one case that
+// exercises the known lazy-finalization race, isolated because that race can
+// kill the process.
+func rawChild(in []byte) []byte {
+	var c kase
+	if err := json.Unmarshal(in, &c); err != nil {
+		return []byte("bad request")
+	}
+	raceReps = 40
+	key, detail := racePairCore(c)
+	b, _ := json.Marshal(map[string]string{"key": key, "detail": detail})
+	return b
+}
+
+func rawCase(r *core.Run, c kase) {
+	ch := core.NewChild("c19raw", 300*time.Second)
+	defer ch.Close()
+	b, _ := json.Marshal(c)
+	out, died, se := ch.Call(b)
+	r.Trans(40)
+	if died {
+		r.Violation(keyOf("data race: the helper process crashed in the case that exercises [lazy-finalize-in-Iterator.Next]", c), c, se)
+		return
+	}
+	var res map[string]string
+	json.Unmarshal(out, &res)
+	if res["key"] != "" {
+		r.Violation(keyOf(res["key"], c), c, res["detail"])
 		return
 	}
 	r.Outcome("race:none")
